@@ -478,7 +478,7 @@ register("C15", streams=[Q("filter", pred="has", apis=["find_matches"], src=Fals
          rule="derivation DAGs over path / pathd: attribute and item steps of every kind (incl. reserved attribute names, odd builder attributes, unsupported indices), siblings derived before and after their shared prefix was rendered or evaluated, equivalent spellings derived late from one prefix; compared: str()/repr() of every expression, results of evaluating it on random documents (keys with '-' and '_'), errors")
 
 register("C06", streams=[Q("all", apis=ALL_APIS, src=None, share=1, guarded=0.06)], n_quick=1500, n_thorough=60000,
-         observables=["results_exc"], oracles=[oracles.snapshot_oracle, oracles.reuse_oracle, oracles.interleave_oracle, oracles.interrupted_use_oracle], generated=["Stores"],
+         observables=["results_exc"], oracles=[oracles.snapshot_oracle, oracles.reuse_oracle, oracles.interleave_oracle, oracles.interrupted_use_oracle, oracles.recycled_document_oracle], generated=["Stores"],
          rule="read-only calls (find / find_matches / get_match / get, traced and untraced, from a document or a Match, any has-family predicates) repeated 2-5 times on the same document and the same path object: deep snapshot (container identities, key order, list contents) before = after every call, the path renders like a never-evaluated twin, later evaluations select what the first did; plus the store table regenerated from the source")
 register("C16", streams=[Q("all", apis=ALL_APIS, src=None, share=1, resume=0.4),
                          Q("filter", pred="mixed", apis=["find", "find_matches"], src=None, share=1, resume=1.0, untraced=0.5)], n_quick=3000, n_thorough=60000,
